@@ -794,7 +794,19 @@ fn main() {
                     truc::generator::generate(&def, &GeneratorConfig::default_with_custom_generators(custom))
                 }));
                 match text {
-                    Ok(text) => println!("generated code ({} bytes):\n{}", text.len(), text),
+                    Ok(text) => {
+                        println!("generated code ({} bytes):\n{}", text.len(), text);
+                        // C19 "generated twice in one process": process-global state must not change the text
+                        let again = catch_unwind(AssertUnwindSafe(|| {
+                            let custom: Vec<Box<dyn FragmentGenerator>> = vec![Box::new(VerifCustomA), Box::new(VerifCustomB)];
+                            truc::generator::generate(&def, &GeneratorConfig::default_with_custom_generators(custom))
+                        }));
+                        match again {
+                            Ok(t2) if t2 == text => println!("second generation in this process: identical"),
+                            Ok(t2) => println!("C19-SECOND-GENERATION-DIFFERS ({} bytes vs {} bytes):\n{}", text.len(), t2.len(), t2),
+                            Err(_) => println!("C19-SECOND-GENERATION-DIFFERS (panicked)"),
+                        }
+                    }
                     Err(_) => obs.fail("C13: generate() panicked".to_string()),
                 }
             }
